@@ -79,6 +79,15 @@ def one_history(ctx, hno, steps):
         return fail("ctor-content", "constructor stored %r size %r, expected "
                     "%r size %r" % (bytes(bi.contents), bi.size, want,
                                     eff_size))
+    # a second interval built from the first one's stored bytes (the very
+    # bytearray object): the two must not share storage afterwards
+    try:
+        twin = gtirb.ByteInterval(contents=bi.contents, size=max(
+            bi.size, len(bi.contents)))          # not attached to the IR
+        twin_bytes = bytes(twin.contents)
+    except Exception as e:   # noqa
+        return fail("twin-ctor", "ByteInterval(contents=<bytearray of "
+                    "another interval>) raised %s" % type(e).__name__)
     blocks = [gtirb.DataBlock(offset=rng.randrange(0, 8),
                               size=rng.randrange(0, 6), byte_interval=bi),
               gtirb.CodeBlock(offset=rng.randrange(0, 4),
@@ -152,6 +161,12 @@ def one_history(ctx, hno, steps):
                                                  exp_s))
         if bi.initialized_size != len(bi.contents):
             return fail("initialized-size", "initialized_size != stored bytes")
+        if bytes(twin.contents) != twin_bytes or \
+                len(twin.contents) > twin.size:
+            return fail("shared-storage", "after %r on one interval, another "
+                        "interval built from its bytes changed: %r -> %r "
+                        "(size %d)" % (line, twin_bytes,
+                                       bytes(twin.contents), twin.size))
         if len(bi.contents) > bi.size:
             return fail("stored-exceed-size", "after %r stored bytes (%d) "
                         "exceed size (%d)" % (line, len(bi.contents), bi.size))
